@@ -192,23 +192,28 @@ static void run_case(const std::string& sub, int64_t index, uint64_t max_points,
     gc::destroy(src);
 }
 
-struct Search { std::string sub; int64_t first, n; uint64_t max_points; int cycles; int64_t chunk; double timeout; std::string what; };
+// a sub-search: corpus indices first .. first+n-1 (stride 1), or the explicit list `only`
+struct Search { std::string sub; int64_t first, n; uint64_t max_points; int cycles; int64_t chunk; double timeout; std::string what; std::vector<int64_t> only; };
 
-static void run_search(const Search& s) {
+static void run_search(const Search& s0) {
+    Search s = s0;
+    if (!s.only.empty()) { s.n = (int64_t)s.only.size(); s.chunk = 1; }
+    auto index = [&](int64_t i) { return s.only.empty() ? s.first + i : s.only[i]; };
     int64_t nchunks = (s.n + s.chunk - 1) / s.chunk;
+    double t0 = now();
     auto body = [&](int64_t c) {
-        for (int64_t i = c * s.chunk; i < std::min(s.n, (c + 1) * s.chunk); i++) run_case(s.sub, s.first + i, s.max_points, s.cycles, false);
+        for (int64_t i = c * s.chunk; i < std::min(s.n, (c + 1) * s.chunk); i++) run_case(s.sub, index(i), s.max_points, s.cycles, false);
     };
     auto describe = [&](int64_t c) {
-        return jobj({{"first_corpus_index", jint(s.first + c * s.chunk)}, {"cases_in_chunk", jint(std::min(s.chunk, s.n - c * s.chunk))}, {"first_library", gc::describe(s.first + c * s.chunk)},
+        return jobj({{"first_corpus_index", jint(index(c * s.chunk))}, {"cases_in_chunk", jint(std::min(s.chunk, s.n - c * s.chunk))}, {"first_library", gc::describe(index(c * s.chunk))},
                      {"max_points", jint((int64_t)s.max_points)}, {"cycles", jint(s.cycles)}});
     };
     auto replay_of = [&](int64_t c) {
-        return fmt("sub=%s idx=%lld n=%lld mp=%llu cycles=%d", s.sub.c_str(), (long long)(s.first + c * s.chunk), (long long)std::min(s.chunk, s.n - c * s.chunk), (unsigned long long)s.max_points, s.cycles);
+        return fmt("sub=%s idx=%lld n=%lld mp=%llu cycles=%d", s.sub.c_str(), (long long)index(c * s.chunk), (long long)std::min(s.chunk, s.n - c * s.chunk), (unsigned long long)s.max_points, s.cycles);
     };
     bool ok = parallel_for(*R, nchunks, body, describe, replay_of, PFOptions{s.timeout, s.sub, true});
-    R->bound(s.sub, fmt("%s x max_points=%llu x %d save/load cycles", s.what.c_str(), (unsigned long long)s.max_points, s.cycles), ok, s.n);
-    R->sample(s.sub, jobj({{"corpus_index", jint(s.first + s.n / 3)}, {"library", gc::describe(s.first + s.n / 3)}, {"max_points", jint((int64_t)s.max_points)}, {"cycles", jint(s.cycles)}}));
+    R->bound(s.sub, fmt("%s x max_points=%llu x %d save/load cycles", s.what.c_str(), (unsigned long long)s.max_points, s.cycles), ok, s.n, {{"wall_s", fmt("%.1f", now() - t0)}});
+    R->sample(s.sub, jobj({{"corpus_index", jint(index(s.n / 3))}, {"library", gc::describe(index(s.n / 3))}, {"max_points", jint((int64_t)s.max_points)}, {"cycles", jint(s.cycles)}}));
 }
 
 int main(int argc, char** argv) {
@@ -234,11 +239,23 @@ int main(int argc, char** argv) {
     const int cyc = T ? 3 : 2;
     std::vector<uint64_t> mps = T ? std::vector<uint64_t>{0, 8, 5, 199} : std::vector<uint64_t>{0, 8};
     // smallest first: singles before pairs before heavy polygons; within a tier max_points 0 first
-    for (uint64_t mp : mps) plan.push_back({"single", 0, NL, mp, cyc, 64, 30, "every single-element library over SIGMA"});
-    for (uint64_t mp : mps) plan.push_back({"pair", NL + NH, NP, mp, cyc, 16, 30, fmt("every ordered pair over the reduced alphabet SIGMA' (%zu elements)", gc::reduced().size())});
-    if (T)
-        for (uint64_t mp : mps) plan.push_back({"heavy", NL, NH, mp, cyc, 1, 120, "single polygons with 8189, 8190, 8191, 8200 vertices"});
+    for (uint64_t mp : mps) plan.push_back({"single", 0, NL, mp, cyc, 64, 30, "every single-element library over SIGMA", {}});
+    for (uint64_t mp : mps) plan.push_back({"pair", NL + NH, NP, mp, cyc, 16, 30, fmt("every ordered pair over the reduced alphabet SIGMA' (%zu elements)", gc::reduced().size()), {}});
+    if (T) {
+        // Polygon::fracture of an 8200-vertex polygon down to 8 / 5 vertices takes 40-60 s per polygon in the
+        // sanitized build, so small vertex limits run on a sub-family; 0 and 199 run on the whole family.
+        std::vector<int64_t> small;
+        for (int64_t i = 0; i < NH; i++) {
+            gc::LibSpec sp = gc::spec_of(NL + i);
+            const gc::Elem& e = sp.elems[0];
+            if (e.n == 8200 && e.tag == 0 && (sp.libcfg == 0 || sp.libcfg == 3)) small.push_back(NL + i);
+        }
+        for (uint64_t mp : std::vector<uint64_t>{0, 199}) plan.push_back({"heavy", NL, NH, mp, cyc, 1, 120, "single polygons with 8189, 8190, 8191, 8200 vertices x repetition {none, 2x2} x properties {none, two} x 4 (unit, precision) x 2 tags", {}});
+        for (uint64_t mp : std::vector<uint64_t>{8, 5}) plan.push_back({"heavy", NL, 0, mp, cyc, 1, 400, "single polygons with 8200 vertices x repetition {none, 2x2} x properties {none, two} x (unit, precision) in {(1e-6,1e-9),(1,1e-3)}", small});
+    }
+    const char* only = getenv("C01_ONLY");  // debugging aid: run only the sub-searches "sub:max_points" listed, e.g. "heavy:199,pair:0"
     for (auto& s : plan) {
+        if (only && !strstr(only, fmt("%s:%llu", s.sub.c_str(), (unsigned long long)s.max_points).c_str())) continue;
         if (run.out_of_time()) { run.bound(s.sub, fmt("%s x max_points=%llu (not started: deadline)", s.what.c_str(), (unsigned long long)s.max_points), false, 0); continue; }
         run_search(s);
     }
